@@ -135,6 +135,10 @@ class Calibrate(Spec):
         S = self; return If(j < S.n0, S.t_op(S.h0, S.ops0[j]), If((j - S.n0) % 2 == 0, S.T_in, S.T_out))
     def bounds(self, E): return [self.N, self.n0, self.ncodes]
     def alias_of(self, E, p, ref): return self.L
+    def relevant(self, label):
+        """hypotheses tried first (sound: fewer hypotheses; the full set is the fallback): the spec recursions matter only for the model / updated-set clauses"""
+        if 'model[name]' in label or 'updated-set' in label or 'statistics ==' in label: return None
+        return ['', 'list+=', 'alloc:', 'req:']
     def may_write(self, E, p, ref, field):
         S = self
         if field.startswith('$d'): return ref == S.d
@@ -178,7 +182,7 @@ class Calibrate(Spec):
         cm = hp.load(S.self_, '_tensor_content_map'); h1, v1 = S.stepped(hasp, valp, S.EX(lenp + 2), STATARR(cm)[ANY])
         one = pre.fresh[-1]                 # the anonymous one-element list `[subgraphs[subgraph_index]]` (allocated by the loop header, last allocation before the loop)
         return [('j-range', And(0 <= j, j <= 1)), ('iterated-list-is-[invoked subgraph]', And(ln(h, one) == 1, items_r(h, one)[0] == S.sg)),
-                ('model[name]: untouched before, folded once with the content-map statistic iff some selected operator reports it after', And(has == If(j == 0, hasp, h1), val == If(j == 0, valp, v1))),
+                ('model[name] after the subgraph walk: folded once iff reported', And(has == If(j == 0, hasp, h1), val == If(j == 0, valp, v1))),
                 ('per-sample-updated-set: empty before the operators are walked', h.load(p.env['updated_tensor_names'].term, '$dhas:str')[ANY] == If(j == 0, z3.BoolVal(False), S.EX(lenp + 2))),
                 ('content-map-and-loaded-sample-kept', And(h.load(S.self_, '_tensor_content_map') == cm, h.load(S.itp, 'loaded_sample') == hp.load(S.itp, 'loaded_sample'))),
                 ('dataset-and-graph-lists-not-written', S.lists_kept(h))] + S.list_described(ctx, h, lenp + 2 * j)
@@ -188,14 +192,14 @@ class Calibrate(Spec):
         h1, v1 = S.stepped(hasp, valp, S.EX(k), STATARR(cm)[ANY]); one = [r for r in pre.fresh if str(r).startswith('lst!')][-1]
         return [('k-range', And(0 <= k, k <= n2)), ('next-operator-is-an-object', Implies(And(0 < k, k < n2), items_r(h, S.L)[k] != NULL)),     # also the instantiation trigger for the list facts at index k
                 ('outer-iterated-list-is-[invoked subgraph]', And(ln(h, one) == 1, items_r(h, one)[0] == S.sg)),
-                ('name is in the per-sample updated set iff one of the first k operators is selected and reports it', U == S.EX(k)),
-                ('model[name]: folded exactly once with the content-map statistic iff in the updated set, else untouched', And(has == h1, val == v1)),
+                ('updated-set[name] iff a selected operator before k reports it', U == S.EX(k)),
+                ('model[name] folded once with the content-map statistic iff updated, else untouched', And(has == h1, val == v1)),
                 ('content-map-kept', h.load(S.self_, '_tensor_content_map') == cm),
                 ('operator-list-not-written-while-walked', And(ln(h, S.L) == n2, items_r(h, S.L) == items_r(hp, S.L))),
                 ('dataset-and-graph-lists-not-written', S.lists_kept(h))]
     def ensures(self, E, ctx, p, ret):
         S = self; h = p.heap; has, val = S.model_at(h)
-        return [('statistics == fold over the dataset in order of the per-sample step (first sample initialises, UPD afterwards, at most once per sample, content-map value)', And(has == S.HASF(S.N), val == S.MAPF(S.N))),
+        return [('statistics == fold of the per-sample step over the dataset in order', And(has == S.HASF(S.N), val == S.MAPF(S.N))),
                 ('interpreter-reset-after-the-last-sample', h.load(S.itp, 'loaded_sample') == NULL),
                 ('dataset-list-not-written', And(ln(h, S.DS) == S.N, items_r(h, S.DS) == S.D)),
                 ('model-dict-object-kept', h.load(S.self_, '_model_qsvs') == S.d),
@@ -244,7 +248,7 @@ class Calibrate(Spec):
     def k_calibrate_func(self, E, p, args, kw, node):
         """calibration function contract (family `calibrate-func`): a fresh dict; names = f(op.inputs, op.outputs, tensors, buffers); value of a name = STAT(content map)[name]"""
         S = self; h = p.heap; op, gi, cm = args[0].term, args[1].term, args[2].term; fn = p.env['calibrate_func'].term
-        E.emit(p, 'callsite:calibrate_func.(operator, graph info of the invoked subgraph, content map of THIS sample)',
+        E.emit(p, 'callsite:calibrate_func.(op, graph info of invoked subgraph, content map of THIS sample)',
                And(h.load(gi, 'subgraph_tensors') == S.tens, h.load(gi, 'buffers') == S.bufs, cm == CONTENT(p.env['data'].term, S.idx)), node.lineno)
         r = E.newdict('dict[str,ref]', p)
         h.store(r.term, '$dhas:str', KEYSF(fn, h.load(op, 'inputs'), h.load(op, 'outputs'), h.load(gi, 'subgraph_tensors'), h.load(gi, 'buffers'))); h.store(r.term, '$dmap:str:ref', STATARR(cm))
